@@ -114,7 +114,8 @@ class StructTypesTop( Component ):
 def _load():
   d=os.path.join(os.path.dirname(os.path.dirname(os.path.abspath(__file__))),'out','zoo'); os.makedirs(d,exist_ok=True)
   p=os.path.join(d,'tr_designs.py')
-  if not os.path.exists(p) or open(p).read()!=DESIGNS_SRC: open(p,'w').write(DESIGNS_SRC)
+  if not os.path.exists(p) or open(p).read()!=DESIGNS_SRC:
+    from zoo.designs import _atomic_write; _atomic_write(p,DESIGNS_SRC)
   import importlib.util
   if 'tr_designs' in sys.modules: return sys.modules['tr_designs']
   spec=importlib.util.spec_from_file_location('tr_designs',p); m=importlib.util.module_from_spec(spec); sys.modules['tr_designs']=m; spec.loader.exec_module(m); return m
